@@ -1,6 +1,7 @@
 package main
 
 import (
+	"strings"
 	"bufio"
 	"encoding/json"
 	"flag"
@@ -73,7 +74,7 @@ func fifoWorker(args []string) error {
 	if err := json.Unmarshal(b, &ops); err != nil {
 		return err
 	}
-	q, err := cdc.NewQueue(*db)
+	q, err := fifoOpen(*db)
 	if err != nil {
 		return err
 	}
@@ -182,7 +183,7 @@ func fifoTrace(args []string) error {
 					return fmt.Errorf("fifo worker exited with %d: %s", code, outb)
 				}
 				// observe the reopened queue
-				q, err := cdc.NewQueue(db)
+				q, err := fifoOpen(db)
 				if err != nil {
 					return err
 				}
@@ -192,7 +193,7 @@ func fifoTrace(args []string) error {
 				q.Close()
 				continue
 			}
-			q, err := cdc.NewQueue(db)
+			q, err := fifoOpen(db)
 			if err != nil {
 				return err
 			}
@@ -217,7 +218,7 @@ func fifoTrace(args []string) error {
 		for {
 			db := filepath.Join(dir, fmt.Sprintf("x%d.db", nexh))
 			w.Write(map[string]any{"ev": "reset", "exh": nexh})
-			q, err := cdc.NewQueue(db)
+			q, err := fifoOpen(db)
 			if err != nil {
 				return err
 			}
@@ -225,7 +226,7 @@ func fifoTrace(args []string) error {
 				op := alpha[k]
 				if op.Op == "reopen" {
 					q.Close()
-					if q, err = cdc.NewQueue(db); err != nil {
+					if q, err = fifoOpen(db); err != nil {
 						return err
 					}
 					w.Write(map[string]any{"ev": "reopen"})
@@ -252,4 +253,17 @@ func fifoTrace(args []string) error {
 	}
 	fmt.Printf("{\"runs\":%d,\"events\":%d,\"kill_segments\":%d,\"kills_hit\":%d,\"exhaustive_sequences\":%d}\n", *runs, w.n, nkill, nkillhit, nexh)
 	return nil
+}
+
+// fifoOpen opens the queue; bbolt gives up after one second if the file is still locked, which on a loaded machine
+// happens when the previous owner (a killed worker being reaped, a queue being closed) has not let go yet.
+func fifoOpen(path string) (*cdc.Queue, error) {
+	var q *cdc.Queue
+	var err error
+	for i := 0; i < 20; i++ {
+		if q, err = cdc.NewQueue(path); err == nil || !strings.Contains(err.Error(), "timeout") {
+			return q, err
+		}
+	}
+	return q, err
 }
